@@ -3,7 +3,7 @@ import Sif.Spec.C08
 /-
   Driver for the C08 family `auth` (stateful: threads the model's three role stores).
     cfg admin <role> <addr> | cfg oracle <addr>|- | cfg clp - | cfg clp <n> <addr>*n      → ok
-    msg <module> <handler> <signer> [<role> <addr>]                                      → ok | err
+    msg <module> <handler> <signer> [<role> <addr> <canonical form of addr, or ->]       → ok | err
     chk c08.guard.<module>.<handler> tag=… <module> <handler> <signer> <ok|err> <changed> → true | false
     chk c08.removed tag=… <role> <spelling> <still>                                       → true | false
   Addresses are the spellings the messages carried (upper- or lower-case bech32); the role table is
@@ -31,8 +31,9 @@ def handleAuth (st : AuthState) : List String → AuthState × String
     if n.toNat? == some addrs.length then ({ st with clpWhitelist := some addrs }, "ok") else (st, "bad-op")
   | ["msg", module, name, signer] =>
     let (st', o) := stepMsg st (specHandler module name) (canonAddr signer) none; (st', showOutcome o)
-  | ["msg", module, name, signer, role, addr] =>
-    let (st', o) := stepMsg st (specHandler module name) (canonAddr signer) (some (role, addr)); (st', showOutcome o)
+  | ["msg", module, name, signer, role, addr, canon] =>
+    let c := if canon == "-" then none else some canon
+    let (st', o) := stepMsg st (specHandler module name) (canonAddr signer) (some ⟨role, addr, c⟩); (st', showOutcome o)
   | ["chk", pred, _tag, module, name, signer, res, changed] =>
     if pred.startsWith "c08.guard" then
       match parseOutcome res, parseBool changed with
